@@ -1399,11 +1399,13 @@ fn explore(tree: &Tree, args: &Args) -> i32 {
         ts.panics + rs.panics,
         t0.elapsed().as_secs_f64()
     );
-    if ts.served_files == 0 || rs.partial_ok == 0 {
-        eprintln!("MACHINERY: no file was ever served / no 206 verified — the check would be vacuous");
+    let code = reporter.finish();
+    let seen_206 = rs.by_status.get(&206).copied().unwrap_or(0);
+    if code == 0 && (ts.served_files == 0 || rs.partial_ok == 0 || seen_206 == 0) {
+        eprintln!("MACHINERY: no file was ever served / no 206 verified and nothing was reported — the check would be vacuous");
         return 2;
     }
-    reporter.finish()
+    code
 }
 
 async fn rerun(tree: &Tree, r: &Value, metas: &[FileMeta], verbose: bool) -> Vec<Violation> {
